@@ -231,7 +231,7 @@ impl ListItem {
 //@ret r
 //@head{
     requires h_basic(*self)
-    ensures r.is_some() == (h_cap(*self) <= h_hi(*self)),
+    ensures r.is_some() == (h_cap(*self) <= h_hi(*self)), r.is_some() == (self.num_blocks >= self.num_free_blocks),
         r.is_some() ==> self.num_blocks >= self.num_free_blocks && r.unwrap() == self.num_blocks - self.num_free_blocks
             && r.unwrap() as int * self.block_len as int == h_lo(*self),
 //@}
